@@ -189,6 +189,10 @@ func init() {
 			}
 		}
 		none := map[string]string{}
+		// equivalent spellings read in the pinned form (shape.go): `if !ok { return false }; …; return true` in Remove,
+		// `if C.left == nil { cur = C } else { rotate }` at the end of treeToVine's loop
+		unguardBool(Remove)
+		elseToContinue(treeToVine)
 
 		// constants
 		if e := x.streeConst(x.File(fs), "maxBalance"); e != nil {
